@@ -10,6 +10,7 @@
 #include <amgcl/backend/block_crs.hpp>
 #include <amgcl/backend/builtin_hybrid.hpp>
 #include <amgcl/backend/eigen.hpp>
+#include <amgcl/value_type/eigen.hpp>
 #include <omp.h>
 #include "harness_main.hpp"
 
@@ -18,8 +19,8 @@ using namespace cm;
 using hz::Plan; using hz::Result; using hz::Violation;
 namespace be = amgcl::backend;
 
-enum { T_FLOAT, T_DOUBLE, T_LDOUBLE, T_COMPLEX, T_BLOCK2, T_BLOCK_CRS, T_HYBRID, T_EIGEN, T_EIGEN_COMPLEX, T_STATIC_OPS, NTYPE };
-static const char *type_names[] = { "float", "double", "long_double", "complex", "block2x2", "block_crs", "builtin_hybrid", "eigen", "eigen_complex", "static_matrix_ops" };
+enum { T_FLOAT, T_DOUBLE, T_LDOUBLE, T_COMPLEX, T_BLOCK2, T_BLOCK_CRS, T_HYBRID, T_EIGEN, T_EIGEN_COMPLEX, T_STATIC_OPS, T_EIGEN_BLOCK, NTYPE };
+static const char *type_names[] = { "float", "double", "long_double", "complex", "block2x2", "block_crs", "builtin_hybrid", "eigen", "eigen_complex", "static_matrix_ops", "eigen_block2x2" };
 
 template <class T> struct mk { static T num(long re, long) { return (T)re; } static T poison(int k) { return k == 0 ? std::numeric_limits<T>::quiet_NaN() : k == 1 ? std::numeric_limits<T>::infinity() : -std::numeric_limits<T>::infinity(); } };
 template <> struct mk<std::complex<double> > { typedef std::complex<double> T; static T num(long re, long im) { return T((double)re, (double)im); } static T poison(int k) { double q = mk<double>::poison(k); return T(q, q); } };
@@ -82,8 +83,8 @@ static void run_scalar(Ctx &c) {
 }
 
 // 2x2 blocks on the builtin backend; scalar vectors in place of block vectors ---------------------
-static void run_block(Ctx &c) {
-    typedef amgcl::static_matrix<double,2,2> B; typedef amgcl::static_matrix<double,2,1> R;
+template <class B, class R, bool HYBRID>
+static void run_block_t(Ctx &c) {
     const long n = c.n, m = c.m;
     be::crs<B> A; A.set_size(n, m, false); for (long i = 0; i <= n; ++i) A.ptr[i] = c.A.ptr[i]; A.set_nonzeros(c.A.nnz());
     for (size_t j = 0; j < c.A.nnz(); ++j) { A.col[j] = c.A.col[j]; for (int a = 0; a < 2; ++a) for (int b = 0; b < 2; ++b) A.val[j](a, b) = (double)c.r.range(-3, 3); }
@@ -133,12 +134,12 @@ static void run_block(Ctx &c) {
         c.res.counts["block_vector_primitives"]++;
     }
     // hybrid backend: block matrix, scalar vectors
-    { typedef be::builtin_hybrid<B> HB; auto As = std::make_shared<be::crs<double> >();
+    if constexpr (HYBRID) { typedef be::builtin_hybrid<B> HB; auto As = std::make_shared<be::crs<double> >();
       // scalar matrix equal to the block matrix
       As->set_size(2 * n, 2 * m, true); for (long i = 0; i < n; ++i) { long wd = (A.ptr[i+1] - A.ptr[i]) * 2; As->ptr[2*i+1] = wd; As->ptr[2*i+2] = wd; } As->set_nonzeros(As->scan_row_sizes());
       for (long i = 0; i < n; ++i) for (int a = 0; a < 2; ++a) { ptrdiff_t h = As->ptr[2*i+a]; for (ptrdiff_t j = A.ptr[i]; j < A.ptr[i+1]; ++j) for (int b = 0; b < 2; ++b) { As->col[h] = 2 * A.col[j] + b; As->val[h] = A.val[j](a, b); ++h; } }
       be::sort_rows(*As);      // the block adapter walks the rows in column order (amg always sorts before moving to the backend)
-      auto H = HB::copy_matrix(As, HB::params());
+      auto H = HB::copy_matrix(As, typename HB::params());
       std::vector<double> oh(2 * n); for (long i = 0; i < 2 * n; ++i) oh[i] = mk<double>::poison((int)i % 3);
       be::spmv(al, *H, xs, 0.0, oh);
       for (long i = 0; i < n; ++i) if (oh[2*i] != out[i](0) || oh[2*i+1] != out[i](1)) { c.fail("spmv", "hybrid-backend", fmt("block row %ld", i)); break; }
@@ -147,6 +148,10 @@ static void run_block(Ctx &c) {
     }
 }
 
+
+static void run_block(Ctx &c) { run_block_t<amgcl::static_matrix<double,2,2>, amgcl::static_matrix<double,2,1>, true>(c); }
+// Eigen fixed-size matrices as the block value type of the builtin backend (amgcl/value_type/eigen.hpp)
+static void run_eigen_block(Ctx &c) { run_block_t<Eigen::Matrix<double,2,2>, Eigen::Matrix<double,2,1>, false>(c); }
 
 template <class T> static double ip_elem(const T &ip, int i, int j) { return ip(i, j); }
 static inline double ip_elem(double ip, int, int) { return ip; }
@@ -281,6 +286,7 @@ Result execute(const Plan &p) {
                 case T_COMPLEX: run_scalar<std::complex<double> >(c); break;
                 case T_BLOCK2: case T_HYBRID: run_block(c); break;
                 case T_BLOCK_CRS: run_block_crs(c); break;
+                case T_EIGEN_BLOCK: run_eigen_block(c); break;
                 case T_STATIC_OPS: run_static_ops<2,2,2>(c); run_static_ops<3,3,3>(c); run_static_ops<2,1,1>(c); run_static_ops<3,1,1>(c); run_static_ops<2,3,2>(c); run_static_ops<4,4,1>(c); run_static_square<2>(c); run_static_square<3>(c); run_static_square<4>(c); break;
                 case T_EIGEN_COMPLEX: run_eigen<std::complex<double> >(c); break;
                 default: run_eigen<double>(c); break;
